@@ -24,7 +24,8 @@ def _tee_e2e():
     if 'r' not in _E2E:
         try:
             from ..bounded.mux import check_c08
-            _E2E['r'] = (check_c08({}).get('failures') or [None])[0]
+            from ..bounded.mux import first_new_failure
+            _E2E['r'] = first_new_failure(check_c08({}))
         except Exception as ex:
             _E2E['r'] = None
     return _E2E['r']
@@ -61,8 +62,25 @@ class TeeCase(FnCase):
             if o is srcs[self.branch]:
                 handler = d.get('on_next')
         self.order_ok = [o for (o, d) in subs] == srcs + [conn] and subs[-1][1].get('connect') is True
+        # stream errors go straight to the observer; the stream completion of branch i goes to a per-branch handler bound to i (the stream
+        # completes when ALL branches have completed: case StreamCompleted)
         self.wiring_ok = all(isinstance(d.get('on_error'), Bound) and d['on_error'].obj is self.observer and d['on_error'].name == 'on_error'
-                             and isinstance(d.get('on_completed'), Bound) and d['on_completed'].obj is self.observer for (o, d) in subs[:-1])
+                             and isinstance(d.get('on_completed'), Partial) and d['on_completed'].args == [bi]
+                             for bi, (o, d) in enumerate(subs[:-1]))
+        if self.case == 'StreamCompleted':
+            hc = next((d.get('on_completed') for (o, d) in subs if o is srcs[self.branch]), None)
+            if not isinstance(hc, Partial) or not isinstance(hc.fn, Closure):
+                raise Unsupported('tee_map (mux): the stream completion of a branch is not handled by a per-branch closure')
+            cid = hc.fn.scope.lookup('is_done')
+            if cid is None or cid not in q.cells:
+                raise Unsupported('tee_map (mux): cannot find the per-branch completion flags')
+            self.done = q.cells[cid]
+            self.d0 = [z3.Bool(f'done0_{t_}') for t_ in range(self.n)]
+            q.heap[self.done.oid] = ('list', tuple(SBool(x) for x in self.d0))
+            q.trace = Const('trace0', Trace); q.calls = []; q.pc = []
+            self.trace0 = q.trace
+            self.path = q
+            return hc, [], {}
         fn = handler.fn if isinstance(handler, Partial) else handler
         self.handler_index_ok = isinstance(handler, Partial) and handler.args == [self.branch]
         sc = fn.scope
@@ -86,6 +104,8 @@ class TeeCase(FnCase):
     def requires(self):
         n = self.n
         r = [Key.is_KK(K_), Key.h(K_) >= 0, LEN >= 0, Not(V.is_VSent(X_))]
+        if self.case == 'StreamCompleted':
+            return []
         if self.case in ('Next', 'Completed') and (self.zip or self.combine):
             r.append(LEN >= (Key.h(K_) + 1) * n)        # the key was created: its cells exist
         return r
@@ -100,6 +120,12 @@ class TeeCase(FnCase):
     # ---- spec of the join machine (from the statement of C08)
     def ensures(self, q, ret):
         n, b = self.n, self.branch
+        if self.case == 'StreamCompleted':
+            eng = self.eng
+            dv = [eng.as_z3_bool(eng.truth(q, v)) for v in q.heap[self.done.oid][1]]
+            alld = And(*[(BoolVal(True) if t_ == b else self.d0[t_]) for t_ in range(n)])
+            return [('completes_when_all_branches_done', q.trace == If(alld, Concat(self.trace0, Unit(em(OUT, Ev.Done))), self.trace0)),
+                    ('done_flags', And(*[dv[t_] == (BoolVal(True) if t_ == b else self.d0[t_]) for t_ in range(n)]))]
         k0 = Key.h(K_); base = k0 * n
         cq, ch = q.heap[self.queue.oid], q.heap[self.has.oid]
         i = Int('ei')
@@ -207,5 +233,5 @@ def unit_tee_wiring(opts):
 def unit_tee_map(opts):
     n = opts.get('n', 2)
     join = opts.get('join', 'zip')
-    cases = [TeeCase(n, join, b, c) for b in range(n) for c in ('Create', 'Next', 'Completed', 'Error', 'Probe')]
+    cases = [TeeCase(n, join, b, c) for b in range(n) for c in ('Create', 'Next', 'Completed', 'Error', 'Probe', 'StreamCompleted')]
     return run_cases(f'tee_map.mux[n={n},{join}]', cases, opts)
